@@ -121,11 +121,12 @@ uninterp spec fn pump_of<'a>(parser: SaphyrParser<'a>, inject: Seq<InjectFrame>,
     rec_stack: Seq<RecFrame<'a>>, budget: Option<BudgetEnforcer>, alias_limits: AliasLimits, total: usize,
     per_anchor: Seq<usize>, stop_at_doc_end: bool, seen_doc_end: bool, produced_any: bool, synthesized: bool) -> Seq<Ev<'a>>;
 
-/// the raw event under which a replayed event is charged to the budget (no anchor, no tag)
+/// the raw event under which a replayed event is charged to the budget: no anchor (it was counted at its definition), and tagged exactly if
+/// the recorded scalar was tagged (F47: a tagged `<<` is not a merge key, replayed or not)
 spec fn replay_charge_matches(ev: Ev<'_>, raw: Event<'_>) -> bool {
     match ev {
-        Ev::Scalar { value, style, .. } => match raw {
-            Event::Scalar(v, s, a, t) => v@ == value@ && v.byte_len() == value.byte_len() && s == style && a == 0 && t is None,
+        Ev::Scalar { value, style, raw_tag, .. } => match raw {
+            Event::Scalar(v, s, a, t) => v@ == value@ && v.byte_len() == value.byte_len() && s == style && a == 0 && (t is None) == (raw_tag is None),
             _ => false },
         Ev::SeqStart { .. } => raw == Event::SequenceStart(0, None),
         Ev::SeqEnd { .. } => raw == Event::SequenceEnd,
